@@ -595,9 +595,11 @@ def field_interop(cf, fc, structs_c, types_f, _depth=0):
     if (carr is not None) != (fc["shape"] == "array"):
         return False, "array vs scalar"
     if carr is not None:
-        ctot, ftot = _extent(carr), _extent(fc["extent"].split(","))
-        if ctot is None or ftot is None or ctot != ftot:
-            return False, "array extent %s vs %s" % (carr, fc["extent"])
+        # C is row-major, Fortran column-major: the extents must appear in reverse order (18.3.5)
+        cd = [re.sub(r"\s+", "", x) for x in carr]
+        fd = [re.sub(r"\s+", "", x) for x in split_top(fc["extent"])]
+        if cd != list(reversed(fd)):
+            return False, "array extents: C [%s] needs Fortran (%s), found (%s)" % ("][".join(cd), ",".join(reversed(cd)), ",".join(fd))
     cb, fb = cf["base"], fc["base"]
     if cf["ptr"] >= 1:
         return fb[0] == "cptr", "pointer member needs type(C_PTR)"
@@ -608,6 +610,17 @@ def field_interop(cf, fc, structs_c, types_f, _depth=0):
             return False, "struct member needs a derived-type component"
         return struct_match(cb[1], fb[1], structs_c, types_f, _depth)
     return scalar_match(cb, fb), "member type/size differs (%s vs %s)" % (cb, fb)
+
+
+def dims_list(dims):
+    """extent strings -> list of ints, or None if one is not a literal"""
+    out = []
+    for d in dims:
+        d = d.strip()
+        if not re.match(r"^\d+$", d):
+            return None
+        out.append(int(d))
+    return out
 
 
 def _extent(dims):
